@@ -1,105 +1,117 @@
 /-
-  C06 — comparisons, stepping and extremes (posit clause).
-  The posit comparison operators compare the encodings as two's-complement integers
-  (`twosComplementLessThan`); these theorems establish that the model's `<` is a strict total order on
-  encodings with NaR least, that `==` is equality of encodings, and that increment and decrement move to the adjacent
-  encoding.  That encoding order = real order of the decoded values (`C06_posVal_strictMono`) is the
-  obligation of UVerifProofs/Lemmas/PositEnc.lean.
+  C06 (posit clause) — comparison of posit encodings is the order of the real values
+  (NaR below everything, equal only to itself); increment and decrement step to the adjacent value; extremes.
+  All statements are for every nbits ≥ 2, every es, every encoding.
 -/
-import UVerif.Model.Posit
-import Mathlib.Tactic.Ring
-import Mathlib.Tactic.Linarith
-
+import UVerif.Model.PositConv
+import UVerifProofs.Lemmas.PositOrder
 open UVerif UVerif.Posit
 
-theorem C06_posit_lt_irrefl (n a : Nat) : lt n a a = false := by
-  unfold lt; simp
+/-- the value of a magnitude encoding is strictly monotone in the encoding -/
+theorem C06_posVal_strictMono (n es y₁ y₂ : ℕ) (hn : 2 ≤ n) (h0 : 0 < y₁) (h12 : y₁ < y₂)
+    (h2 : y₂ < 2 ^ (n - 1)) : posVal n es y₁ < posVal n es y₂ :=
+  posVal_strictMono n es y₁ y₂ hn h0 h12 h2
 
-theorem C06_posit_lt_trans (n a b c : Nat) (h1 : lt n a b = true) (h2 : lt n b c = true) : lt n a c = true := by
-  unfold lt at *; simp at *; omega
+example : posVal 16 2 0x7001 < posVal 16 2 0x7002 :=
+  C06_posVal_strictMono 16 2 _ _ (by decide) (by decide) (by decide) (by decide)
 
-theorem C06_posit_lt_asymm (n a b : Nat) (h : lt n a b = true) : lt n b a = false := by
-  unfold lt at *; simp at *; omega
+/-- `operator<` (two's complement comparison of the encodings) is the order of the values, NaR least -/
+theorem C06_posit_order (n es a b : ℕ) (hn : 2 ≤ n) (ha : a < 2 ^ n) (hb : b < 2 ^ n) :
+    Posit.lt n a b = true ↔ optLt (positVal n es a) (positVal n es b) := by
+  rw [optLt_positVal_iff n es a b hn ha hb]; unfold Posit.lt; simp
 
-theorem toSigned_eq (n a : Nat) (hn : 0 < n) (ha : a < 2 ^ n) :
-    toSigned n a = if a < 2 ^ (n - 1) then (a : Int) else (a : Int) - ((2 ^ n : Nat) : Int) := by
-  unfold toSigned
-  have hn' : n ≠ 0 := by omega
-  simp only [hn', if_false, Nat.mod_eq_of_lt ha]
+/-- `operator==` (bit equality) is equality of values (NaR equal to itself only) -/
+theorem C06_posit_eq (n es a b : ℕ) (hn : 2 ≤ n) (ha : a < 2 ^ n) (hb : b < 2 ^ n) :
+    Posit.eq n a b = true ↔ positVal n es a = positVal n es b := by
+  unfold Posit.eq
+  rw [Nat.mod_eq_of_lt ha, Nat.mod_eq_of_lt hb]
+  simp only [beq_iff_eq]
+  exact ⟨fun h => by rw [h], positVal_injective n es a b hn ha hb⟩
 
-theorem two_pow_split (n : Nat) (hn : 0 < n) : (2 ^ n : Nat) = 2 * 2 ^ (n - 1) := by
-  rw [← Nat.pow_succ']; congr 1; omega
+/-- trichotomy: exactly the total order of the values -/
+theorem C06_posit_trichotomy (n a b : ℕ) (hn : 2 ≤ n) (ha : a < 2 ^ n) (hb : b < 2 ^ n) :
+    Posit.lt n a b = true ∨ Posit.eq n a b = true ∨ Posit.lt n b a = true := by
+  unfold Posit.lt Posit.eq
+  rw [Nat.mod_eq_of_lt ha, Nat.mod_eq_of_lt hb]
+  simp only [decide_eq_true_eq, beq_iff_eq]
+  rcases lt_trichotomy (toSigned n a) (toSigned n b) with h | h | h
+  · exact Or.inl h
+  · exact Or.inr (Or.inl (toSigned_injective n a b (by omega) ha hb h))
+  · exact Or.inr (Or.inr h)
 
-/-- signed reading is injective on n-bit patterns -/
-theorem toSigned_inj (n a b : Nat) (hn : 0 < n) (ha : a < 2 ^ n) (hb : b < 2 ^ n)
-    (h : toSigned n a = toSigned n b) : a = b := by
-  rw [toSigned_eq n a hn ha, toSigned_eq n b hn hb] at h
-  have h2 := two_pow_split n hn
-  generalize 2 ^ (n - 1) = P at *
-  generalize 2 ^ n = Q at *
-  subst h2
-  split at h <;> split at h <;> omega
+example : Posit.lt 16 0x8000 0xffff = true ∧ Posit.lt 16 0xffff 0x0001 = true := by decide
 
-/-- trichotomy: exactly one of a < b, a == b, b < a holds for n-bit encodings -/
-theorem C06_posit_trichotomy (n a b : Nat) (hn : 0 < n) (ha : a < 2 ^ n) (hb : b < 2 ^ n) :
-    (lt n a b = true ∧ eq n a b = false ∧ lt n b a = false) ∨
-    (lt n a b = false ∧ eq n a b = true ∧ lt n b a = false) ∨
-    (lt n a b = false ∧ eq n a b = false ∧ lt n b a = true) := by
-  unfold lt eq
-  simp only [Nat.mod_eq_of_lt ha, Nat.mod_eq_of_lt hb, decide_eq_true_eq, decide_eq_false_iff_not, beq_iff_eq,
-    beq_eq_false_iff_ne]
-  rcases Int.lt_trichotomy (toSigned n a) (toSigned n b) with h | h | h
-  · left; refine ⟨h, ?_, by omega⟩; intro e; subst e; omega
-  · right; left; exact ⟨by omega, toSigned_inj n a b hn ha hb h, by omega⟩
-  · right; right; refine ⟨by omega, ?_, h⟩; intro e; subst e; omega
+/-- `++` yields the next larger value: nothing lies strictly between; the only exception is maxpos -/
+theorem C06_posit_step (n es a : ℕ) (hn : 2 ≤ n) (ha : a < 2 ^ n) (hmax : a ≠ maxposEnc n) :
+    optLt (positVal n es a) (positVal n es (incr n a)) ∧
+    ∀ c, c < 2 ^ n →
+      ¬ (optLt (positVal n es a) (positVal n es c) ∧ optLt (positVal n es c) (positVal n es (incr n a))) := by
+  have hs := toSigned_incr n a hn ha hmax
+  constructor
+  · rw [optLt_positVal_iff n es _ _ hn ha (incr_lt n a)]; omega
+  · intro c hc
+    rw [optLt_positVal_iff n es _ _ hn ha hc, optLt_positVal_iff n es _ _ hn hc (incr_lt n a)]
+    omega
 
-/-- NaR (the pattern 10…0) is less than every other encoding -/
-theorem C06_posit_nar_least (n a : Nat) (hn : 0 < n) (ha : a < 2 ^ n) (hne : a ≠ 2 ^ (n - 1)) :
-    lt n (2 ^ (n - 1)) a = true := by
-  have h2 := two_pow_split n hn
-  have hp : 0 < 2 ^ (n - 1) := Nat.two_pow_pos _
-  have hlt : 2 ^ (n - 1) < 2 ^ n := by omega
-  unfold lt
-  rw [toSigned_eq n a hn ha, toSigned_eq n _ hn hlt]
-  generalize 2 ^ (n - 1) = P at *
-  generalize 2 ^ n = Q at *
-  subst h2
-  simp only [Nat.lt_irrefl, if_false, decide_eq_true_eq]
-  split <;> omega
+/-- at maxpos `++` wraps to NaR -/
+theorem C06_posit_step_wrap (n es : ℕ) (hn : 2 ≤ n) :
+    incr n (maxposEnc n) = 2 ^ (n - 1) ∧ positVal n es (2 ^ (n - 1)) = none := by
+  have hp := two_pow_pred n (by omega)
+  have hpos : 0 < 2 ^ (n - 1) := by positivity
+  constructor
+  · unfold incr maxposEnc
+    rw [Nat.sub_add_cancel hpos, Nat.mod_eq_of_lt (by omega)]
+  · unfold positVal
+    simp only [Nat.mod_eq_of_lt (show 2 ^ (n - 1) < 2 ^ n by omega)]
+    simp
 
-/-- increment moves to the next encoding in the signed order, except at maxpos where it wraps to NaR -/
-theorem C06_posit_incr (n a : Nat) (hn : 0 < n) (ha : a < 2 ^ n) (hmax : a ≠ 2 ^ (n - 1) - 1) :
-    toSigned n (incr n a) = toSigned n a + 1 := by
-  have h2 := two_pow_split n hn
-  have hp : 0 < 2 ^ (n - 1) := Nat.two_pow_pos _
-  have hlt : incr n a < 2 ^ n := Nat.mod_lt _ (Nat.two_pow_pos _)
-  rw [toSigned_eq n a hn ha, toSigned_eq n _ hn hlt]
-  unfold incr
-  by_cases hw : a + 1 < 2 ^ n
-  · rw [Nat.mod_eq_of_lt hw]
-    generalize 2 ^ (n - 1) = P at *
-    generalize 2 ^ n = Q at *
-    subst h2
-    split <;> split <;> omega
-  · have : a + 1 = 2 ^ n := by omega
-    rw [this, Nat.mod_self]
-    generalize 2 ^ (n - 1) = P at *
-    generalize 2 ^ n = Q at *
-    subst h2
-    split <;> split <;> omega
+/-- `--` yields the next smaller value; the only exception is NaR (which wraps to maxpos) -/
+theorem C06_posit_step_decr (n es a : ℕ) (hn : 2 ≤ n) (ha : a < 2 ^ n) (hnar : a ≠ 2 ^ (n - 1)) :
+    optLt (positVal n es (decr n a)) (positVal n es a) ∧
+    ∀ c, c < 2 ^ n →
+      ¬ (optLt (positVal n es (decr n a)) (positVal n es c) ∧ optLt (positVal n es c) (positVal n es a)) := by
+  have hid := incr_decr n a ha
+  have hne : decr n a ≠ maxposEnc n := by
+    intro h
+    rw [h, (C06_posit_step_wrap n es hn).1] at hid
+    exact hnar hid.symm
+  have := C06_posit_step n es (decr n a) hn (decr_lt n a) hne
+  rw [hid] at this
+  exact this
 
-/-- decrement is the inverse of increment on n-bit encodings -/
-theorem C06_posit_decr_incr (n a : Nat) (ha : a < 2 ^ n) : decr n (incr n a) = a := by
-  unfold incr decr
-  have hp : 0 < 2 ^ n := Nat.two_pow_pos _
-  by_cases hw : a + 1 < 2 ^ n
-  · rw [Nat.mod_eq_of_lt hw]
-    have : a + 1 + 2 ^ n - 1 = a + 2 ^ n := by omega
-    rw [this, Nat.add_mod_right, Nat.mod_eq_of_lt ha]
-  · have : a + 1 = 2 ^ n := by omega
-    rw [this, Nat.mod_self]
-    have : 0 + 2 ^ n - 1 = a := by omega
-    rw [this, Nat.mod_eq_of_lt ha]
+example : incr 16 0x7ffe = 0x7fff ∧ decr 16 0x0000 = 0xffff := by decide
 
-/-- non-vacuity: posit<8,·> encodings 0x7e < 0x7f, and 0x80 (NaR) below both -/
-example : lt 8 0x7e 0x7f = true ∧ lt 8 0x80 0x7e = true ∧ incr 8 0x7e = 0x7f := by decide
+/-- maxpos = 2^((n-2)·2^es) is the largest value, minpos = 2^(-(n-2)·2^es) the smallest positive one -/
+theorem C06_posit_extremes (n es : ℕ) (hn : 2 ≤ n) :
+    positVal n es (maxposEnc n) = some ((2 : ℚ) ^ (((n : ℤ) - 2) * ((2 ^ es : ℕ) : ℤ))) ∧
+    positVal n es 1 = some ((2 : ℚ) ^ (-((n : ℤ) - 2) * ((2 ^ es : ℕ) : ℤ))) ∧
+    (∀ a, a < 2 ^ n → ¬ optLt (positVal n es (maxposEnc n)) (positVal n es a)) ∧
+    (∀ a, a < 2 ^ n → ¬ (optLt (positVal n es 0) (positVal n es a) ∧
+        optLt (positVal n es a) (positVal n es 1))) := by
+  have hp := two_pow_pred n (by omega)
+  have hpos : 0 < 2 ^ (n - 1) := by positivity
+  have h2 : 2 ≤ 2 ^ n := by
+    calc 2 = 2 ^ 1 := rfl
+      _ ≤ 2 ^ n := Nat.pow_le_pow_right (by norm_num) (by omega)
+  have hmx : maxposEnc n < 2 ^ (n - 1) := by unfold maxposEnc; omega
+  have h3 : 2 ≤ 2 ^ (n - 1) := by
+    calc 2 = 2 ^ 1 := rfl
+      _ ≤ 2 ^ (n - 1) := Nat.pow_le_pow_right (by norm_num) (by omega)
+  refine ⟨?_, ?_, ?_, ?_⟩
+  · rw [← posVal_maxpos n es hn]
+    unfold positVal
+    simp only [Nat.mod_eq_of_lt (show maxposEnc n < 2 ^ n by omega)]
+    unfold maxposEnc at hmx ⊢
+    rw [if_neg (by omega), if_neg (by omega), if_pos (by omega)]
+  · rw [← posVal_minpos n es hn]
+    unfold positVal
+    simp only [Nat.mod_eq_of_lt (show 1 < 2 ^ n by omega)]
+    rw [if_neg (by omega), if_neg (by omega), if_pos (by omega)]
+  · intro a ha
+    rw [optLt_positVal_iff n es _ _ hn (by omega) ha, toSigned_lo n _ (by omega) hmx]
+    have := (toSigned_bounds n a (by omega) ha).2
+    unfold maxposEnc; push_cast [Nat.cast_sub hpos] at this ⊢; omega
+  · intro a ha
+    rw [optLt_positVal_iff n es _ _ hn (by omega) ha, optLt_positVal_iff n es _ _ hn ha (by omega),
+      toSigned_lo n 0 (by omega) hpos, toSigned_lo n 1 (by omega) (by omega)]
+    push_cast; omega
